@@ -47,6 +47,7 @@ pub fn run(args: &Args, rep: &mut Report) {
         let mut scfg = SessCfg::all(unicode_build());
         scfg.props = ["C01", "C03"].into_iter().collect();
         scfg.nhandles = 1;
+        scfg.short_dev = if fat == 16 { Some(0x51) } else { None };
         let total = n * n * n;
         let mut idx = shard;
         // a first op that fails on the empty tree leaves the empty tree: sequences are still executed, but the
